@@ -19,7 +19,7 @@ RULE = ('tree models (generator of C13) printed with random indentation, blank l
         'object / match, nchar = object length for object processors; processor-supplied fields kept (variants: filename only, line+col, line only, nchar only, all four) and the missing ones filled from the processed text. distinct = (tree '
         'shape, target kind, raise variant, load kind); non-trivial = target not on the first line or in the imported file')
 REQUIRED = {'errors_checked': 500, 'object_processor_errors': 150, 'match_processor_errors': 100, 'own_location_kept': 50,
-            'wrapped_foreign_exceptions': 80, 'imported_file_errors': 40, 'string_loads': 50, 'nchar_checked': 100, 'errors_of_a_subclass': 50,
+            'wrapped_foreign_exceptions': 80, 'imported_file_errors': 40, 'string_loads': 50, 'nchar_checked': 100, 'errors_of_a_subclass': 50, 'loads_with_user_classes': 100, 'loads_with_read_only_attribute_user_classes': 50,
             'partial_location_completed': 60, 'inner_match_of_composite_match_rule': 50,
             'inner_match_after_newline_inside_composite': 15, 'loads_with_use_regexp_group': 100}
 
@@ -218,7 +218,26 @@ def one(ctx, i, rep=None):
         assert 'Tag: /#\\w+/;' in gtext
         gtext = gtext.replace('Tag: /#\\w+/;', 'Tag: /#(\\w+)/;')
         ctx.count('loads_with_use_regexp_group')
-    mm = metamodel_from_str(gtext, use_regexp_group=urg)
+    classes = []
+    ucv = i % 6
+    if ucv in (1, 4):
+        # user classes for the common rules; variant 4 keeps `name` under another name and exposes it through a read-only
+        # property (direct assignment of that grammar attribute is refused, the constructor gets it)
+        def mk(cname, readonly):
+            def __init__(self, **kw):
+                if readonly:
+                    object.__setattr__(self, '_n', kw.pop('name', None))
+                for k_, v_ in kw.items():
+                    object.__setattr__(self, k_, v_)
+            d = {'__init__': __init__}
+            if readonly:
+                d['name'] = property(lambda self: self._n)
+            return type(cname, (), d)
+        classes = [mk(c, ucv == 4) for c in ('Block', 'Leaf', 'Ref')]
+        ctx.count('loads_with_user_classes')
+        if ucv == 4:
+            ctx.count('loads_with_read_only_attribute_user_classes')
+    mm = metamodel_from_str(gtext, use_regexp_group=urg, classes=classes)
     mm.register_scope_providers({'*.*': sp.PlainNameImportURI()})
     procs = {'Val': wrap(valproc), 'Tag': wrap(tagproc), 'Num': wrap(numproc), 'Range': wrap(rangeproc)}
     if via_abstract:
